@@ -39,14 +39,14 @@ pub fn plan_parts(prop: &str, tier: Tier) -> (u64, u64, u64) {
         Tier::Thorough => t,
     };
     match prop {
-        "C02" => (scale(24_000, 600_000), scale(600, 12_000), scale(0, 12)),
-        "C03" => (scale(24_000, 600_000), scale(600, 12_000), scale(0, 8)),
-        "C08" => (scale(40_000, 3_000_000), 0, 0),
-        "C09" => (scale(3_000, 150_000), 0, 0),
+        "C02" => (scale(24_000, 250_000), scale(600, 6_000), scale(0, 12)),
+        "C03" => (scale(24_000, 250_000), scale(600, 6_000), scale(0, 8)),
+        "C08" => (scale(40_000, 2_000_000), 0, 0),
+        "C09" => (scale(3_000, 300_000), 0, 0),
         "C11" => (scale(20_000, 2_000_000), 0, 0),
-        "C12" => (scale(60_000, 4_000_000), 0, 0),
-        "C13" => (scale(50_000, 4_000_000), 0, 0),
-        "C18" => (scale(400, 6_000), 0, 0),
+        "C12" => (scale(60_000, 8_000_000), 0, 0),
+        "C13" => (scale(50_000, 8_000_000), 0, 0),
+        "C18" => (scale(400, 4_000), 0, 0),
         _ => (0, 0, 0),
     }
 }
@@ -87,6 +87,14 @@ pub fn exec(case: &Case) -> RunOut {
         Case::Pf(c) => pf::exec(c),
         Case::Thr(c) => thr::exec(c),
         Case::Miri(c) => crate::miri::exec(c),
+    }
+}
+
+/// Shape of a case whose execution killed the process (no oracle ran, so the shape comes from the input alone).
+pub fn death_shape(case: &Case) -> String {
+    match case {
+        Case::Tree(c) => trees::input_shape(c),
+        _ => "general".into(),
     }
 }
 
